@@ -33,7 +33,8 @@ META = {
                   "Python does only what the property calls 'standard zlib/bzip2 payloads': zlib/bz2 (de)compression of sector payloads behind the "
                   "method byte, SHA-1 tokens of contents, and file I/O. Both directions run on TLC-generated configurations (V1/V2 x shift 0..3 x "
                   "none/zlib/bzip2 x plain/encrypted/fix-key x 10 length classes around the sector size x 5 content classes incl. the "
-                  "stream-one-byte-shorter boundary x ASCII and non-ASCII names x sector checksums; the reference writer also varies "
+                  "stream-one-byte-shorter boundary x ASCII and non-ASCII names x sector checksums; the reference writer also varies the foreign "
+                  "compressor (zlib window bits 9..15, levels 1/3/6/9, five strategies - i.e. every CMF/FLEVEL header byte pair - and bzip2 block sizes 1..9), "
                   "single-unit/sectored storage, hash-table size incl. full tables, deleted slots, hi-block table, pre-archive data with and "
                   "without user data header, a same-name entry of another locale, and V3 68-byte headers over classic tables): the reference decodes every library-written archive and the "
                   "library reads every reference-written archive under four spellings. The reference is model-checked for "
@@ -188,27 +189,33 @@ def gen_content(cc, n, rng):
     raise core.ToolError("content class " + cc)
 
 
-def compress_unit(raw, meth):
-    """Sector as stored by a conformant writer: compressed (method byte + payload) only if smaller."""
+ZSTRAT = {"default": zlib.Z_DEFAULT_STRATEGY, "filtered": zlib.Z_FILTERED, "huffman": zlib.Z_HUFFMAN_ONLY, "rle": zlib.Z_RLE, "fixed": zlib.Z_FIXED}
+
+
+def compress_unit(raw, meth, zp=None):
+    """Sector as stored by a conformant writer: compressed (method byte + payload) only if smaller.
+    zp = (wbits, level, strategy, bz2 level): any RFC 1950 zlib stream / any bzip2 block size is a standard payload."""
+    wbits, zlevel, zstrat, bzlevel = zp or (15, 6, "default", 9)
     if meth == "none" or not raw:
         return {"m": -1, "p": list(raw)}
     if meth == "zlib":
-        c, m = zlib.compress(raw, 6), 2
+        co = zlib.compressobj(zlevel, zlib.DEFLATED, wbits, 8, ZSTRAT[zstrat])
+        c, m = co.compress(raw) + co.flush(), 2
     else:
-        c, m = bz2.compress(raw, 9), 16
+        c, m = bz2.compress(raw, bzlevel), 16
     if len(c) + 1 < len(raw):
         return {"m": m, "p": list(c)}
     return {"m": -1, "p": list(raw)}
 
 
-def make_file(name, data, meth, enc, unit, ssize, crc=False):
+def make_file(name, data, meth, enc, unit, ssize, crc=False, zp=None):
     single = (len(data) <= ssize) if unit == "auto" else (unit == "single")
     if not data:
         secs = []
     elif single:
-        secs = [compress_unit(data, meth)]
+        secs = [compress_unit(data, meth, zp)]
     else:
-        secs = [compress_unit(data[i:i + ssize], meth) for i in range(0, len(data), ssize)]
+        secs = [compress_unit(data[i:i + ssize], meth, zp) for i in range(0, len(data), ssize)]
     return {"name": name, "nb": list(name.encode("utf-8")), "locale": 0, "crc": bool(crc), "fsize": len(data), "enc": enc, "single": single,
             "cflag": meth != "none", "sectors": secs}
 
@@ -232,8 +239,10 @@ def concretise_dir2(cases, seed):
         for fi, f in enumerate(c["files"]):
             rng = random.Random(f"c02r:{seed}:{c['id']}:{fi}")
             data = gen_content(f["cc"], length_of(f["lc"], ssize), rng)
-            files.append(make_file(f["name"], data, f["meth"], f["enc"], f["unit"], ssize, f.get("crc", False)))
-            meta.append({"name": f["name"], "len": len(data), "tok": tok(data), "meth": f["meth"], "enc": f["enc"], "lc": f["lc"], "unit": f["unit"] + ("+crc" if f.get("crc") else "")})
+            zp = (f.get("wbits", 15), f.get("zlevel", 6), f.get("zstrat", "default"), f.get("bzlevel", 9))
+            files.append(make_file(f["name"], data, f["meth"], f["enc"], f["unit"], ssize, f.get("crc", False), zp))
+            meta.append({"name": f["name"], "len": len(data), "tok": tok(data), "meth": f["meth"], "enc": f["enc"], "lc": f["lc"], "unit": f["unit"] + ("+crc" if f.get("crc") else ""),
+                         "codec": (f"w{zp[0]}l{zp[1]}{zp[2]}" if f["meth"] == "zlib" else f"bz{zp[3]}" if f["meth"] == "bzip2" else "")})
         twin = {"name": "", "len": -1, "tok": ""}
         if c.get("twin") and files:
             # same name as file 1, locale 0x409 (enUS), other content, inserted first => earlier in the probe chain;
@@ -247,7 +256,7 @@ def concretise_dir2(cases, seed):
         names = [f["name"] for f in c["files"]] + [LISTFILE]
         ldata = "".join(n + "\r\n" for n in names).encode("utf-8")
         files.append(make_file(LISTFILE, ldata, c["listfile"], "plain", "auto", ssize))
-        meta.append({"name": LISTFILE, "len": len(ldata), "tok": tok(ldata), "meth": c["listfile"], "enc": "plain", "lc": "-", "unit": "auto"})
+        meta.append({"name": LISTFILE, "len": len(ldata), "tok": tok(ldata), "meth": c["listfile"], "enc": "plain", "lc": "-", "unit": "auto", "codec": ""})
         n = len(files)
         hcount = pow2_at_least(2 * n + 2) if c["roomy"] else pow2_at_least(n + c["ndel"])
         # last: differs from a (possibly present) name only in the case of a NON-ASCII letter: another name for the format
@@ -364,7 +373,7 @@ def run(ctx, cases_override=None):
                                 "names": [m["name"] for m in w["meta"]], "lens": [m["len"] for m in w["meta"]],
                                 "toks": [m["tok"] for m in w["meta"]], "labels": labels, "twin": w["twin"],
                                 "absent": [w["pool"][i - 1] for i in o["absent"]],
-                                "cfg": {**w["cfg"], "files": [{k: m[k] for k in ("name", "meth", "enc", "lc", "unit")} for m in w["meta"]]}}) + "\n")
+                                "cfg": {**w["cfg"], "files": [{k: m[k] for k in ("name", "meth", "enc", "lc", "unit", "codec")} for m in w["meta"]]}}) + "\n")
     trace2 = ctx.harness(binary, rpath, trace_name="trace2.ndjson", extra=("read",)) if wcases else None
 
     # (D) TLC decides
